@@ -107,7 +107,11 @@ func (in *Interp) strEq(a, b StrV) *Term {
 		bound = int(b.Len.val)
 	}
 	if bound > in.cfg.MaxBytes && !(a.Len.IsConst() || b.Len.IsConst()) {
-		in.boundExceeded("string comparison longer than MaxBytes")
+		// unwinding assertion: equal lengths above MaxBytes must be infeasible
+		over := ts.And(lenEq, ts.ULt(in.bv64(in.cfg.MaxBytes), a.Len))
+		if r, _ := in.check(over); r != Unsat {
+			in.boundExceeded("string comparison longer than MaxBytes")
+		}
 		bound = in.cfg.MaxBytes
 	}
 	r := lenEq
